@@ -102,7 +102,7 @@ impl<'a> R<'a> {
 }
 
 fn stats_to_vec(s: &RunStats) -> Vec<u64> {
-    vec![s.read_dir_calls, s.read_dir_nonsorted, s.containers, s.containers_nonzero_keys, s.tweaks_applied, s.iterations, s.whole_file_reads, s.opens, s.short_reads, s.eintr, s.bytes_read, s.fs_escapes, s.prints, s.thread_spawns, s.thread_spawns_deferred, s.sched_steps, s.sched_choice_points, s.context_switches, s.sched_deviations, s.max_tasks, s.timeouts_offered, s.timeouts_fired, s.timeouts_natural, s.cores_asked, s.short_writes, s.write_eintr, s.stderr_prints, s.prints_after_exit, s.clock_reads, s.shuttle_runs, s.programs_spawned, s.programs_missing, s.fd_limit_decisions, s.emfile, s.max_open_fds, s.parallel_stages]
+    vec![s.read_dir_calls, s.read_dir_nonsorted, s.containers, s.containers_nonzero_keys, s.tweaks_applied, s.iterations, s.whole_file_reads, s.opens, s.short_reads, s.eintr, s.bytes_read, s.fs_escapes, s.prints, s.thread_spawns, s.thread_spawns_deferred, s.sched_steps, s.sched_choice_points, s.context_switches, s.sched_deviations, s.max_tasks, s.timeouts_offered, s.timeouts_fired, s.timeouts_natural, s.cores_asked, s.short_writes, s.write_eintr, s.stderr_prints, s.prints_after_exit, s.clock_reads, s.shuttle_runs, s.programs_spawned, s.programs_missing, s.fd_limit_decisions, s.emfile, s.max_open_fds, s.parallel_stages, s.read_faults_injected]
 }
 fn stats_from_vec(v: &[u64]) -> RunStats {
     RunStats {
@@ -142,9 +142,10 @@ fn stats_from_vec(v: &[u64]) -> RunStats {
         emfile: v[33],
         max_open_fds: v[34],
         parallel_stages: v[35],
+        read_faults_injected: v[36],
     }
 }
-const N_STATS: usize = 36;
+const N_STATS: usize = 37;
 
 fn put_decision(w: &mut W, d: &Decision) {
     match d {
@@ -202,6 +203,10 @@ fn put_decision(w: &mut W, d: &Decision) {
             w.u64(7);
             w.u64(*n as u64);
         }
+        Decision::ReadFault { at } => {
+            w.u64(8);
+            w.u64(*at);
+        }
     }
 }
 
@@ -246,6 +251,7 @@ fn get_decision(r: &mut R) -> Result<Decision, String> {
             available: r.u64()? == 1,
         },
         7 => Decision::FdLimit { n: r.u64()? as u32 },
+        8 => Decision::ReadFault { at: r.u64()? },
         t => return Err(format!("unknown decision tag {}", t)),
     })
 }
